@@ -211,6 +211,61 @@ open Dawgs.C17.Seq in
 def fmtPath (s : Seg) : String :=
   "-".intercalate (s.pathNodes.map toString) ++ "/" ++ "-".intercalate (s.pathEdges.map toString)
 
+/-- filter tokens of the c17seq protocol: `-` = nil, `r<csv>` = reject these node ids (of the node / of the
+segment's terminal node), `d<k>` = accept segments of depth ≤ k -/
+def parseNodeFilter (t : String) : Option (Option (Nat → Bool)) :=
+  if t == "-" then some none
+  else if t.startsWith "r" then
+    let body := (t.drop 1).toString
+    let ids := if body.isEmpty then some [] else (body.splitOn ",").mapM String.toNat?
+    ids.map (fun ids => some (fun n => !ids.contains n))
+  else none
+
+open Dawgs.C17.Seq in
+def parseSegFilter (t : String) : Option (Option (Seg → Bool)) :=
+  if t.startsWith "d" then ((t.drop 1).toString.toNat?).map (fun k => some (fun s => decide (s.depth ≤ k)))
+  else (parseNodeFilter t).map (fun f => f.map (fun g => fun s => g s.node))
+
+open Dawgs.C17.Seq in
+def parseHelper : String → Option Helper
+  | "paths" => some .paths
+  | "terminals" => some .terminals
+  | "nodes" => some .nodes
+  | "intermediary" => some .intermediary
+  | _ => none
+
+open Dawgs.C17.Seq in
+structure Query where
+  plan : Plan
+  root : Nat
+  skip : Int
+  limit : Int
+
+open Dawgs.C17.Seq in
+def parseQuery (edges : List (Nat × Nat × Nat)) (ts : List String) : Option Query :=
+  match ts with
+  | [h, dir, root, skip, limit, nf, df, pf] => do
+    let h ← parseHelper h
+    let root ← root.toNat?
+    let skip ← skip.toInt?
+    let limit ← limit.toInt?
+    let nf ← parseNodeFilter nf
+    let df ← parseSegFilter df
+    let pf ← parseSegFilter pf
+    if (dir != "out" && dir != "in") || (h == .intermediary && nf.isNone) then none else
+    some { plan := { adj := adjOf edges (dir == "in"), helper := h, nodeFilter := nf, descentFilter := df, pathFilter := pf },
+           root := root, skip := skip, limit := limit }
+  | _ => none
+
+def seqFuel (edges : List (Nat × Nat × Nat)) : Nat :=
+  4 * (edges.length + 2) * (edges.length + 2) * (edges.length + 2) + 64
+
+open Dawgs.C17.Seq in
+def fmtResult (q : Query) (out : List Seg) : String :=
+  match q.plan.helper with
+  | .paths | .intermediary => "paths=" ++ " ".intercalate (out.map fmtPath)
+  | _ => "nodes=" ++ natList (sortNat (rootIncluded q.plan q.root ++ out.map Seg.node).eraseDups)
+
 open Dawgs.C17.Seq in
 def sstep (st : SSt) (ts : List String) : SSt × String :=
   match ts with
@@ -218,20 +273,6 @@ def sstep (st : SSt) (ts : List String) : SSt × String :=
   | ["edge", e, a, b] => match e.toNat?, a.toNat?, b.toNat? with
     | some e, some a, some b => ({ st with edges := insertEdge (e, a, b) st.edges }, "ok")
     | _, _, _ => (st, "bad-op")
-  | [h, dir, root, skip, limit] =>
-    let helper : Option Helper := match h with
-      | "paths" => some .paths | "terminals" => some .terminals | "nodes" => some .nodes
-      | "intermediary" => some .intermediary | _ => none
-    match helper, root.toNat?, skip.toInt?, limit.toInt? with
-    | some h, some root, some skip, some limit =>
-      let adj := adjOf st.edges (dir == "in")
-      let fuel := 4 * (st.edges.length + 2) * (st.edges.length + 2) * (st.edges.length + 2) + 64
-      let fin := Dawgs.C17.Seq.loop adj h fuel (start h root skip limit)
-      if !fin.stack.isEmpty then (st, "model-out-of-fuel") else
-      match h with
-      | .paths | .intermediary => (st, "paths=" ++ " ".intercalate (fin.outPaths.reverse.map fmtPath))
-      | _ => (st, "nodes=" ++ natList (sortNat fin.outNodes.eraseDups))
-    | _, _, _, _ => (st, "bad-op")
   | ["window", skip, limit, n] => match skip.toInt?, limit.toInt?, n.toNat? with
     | some skip, some limit, some n =>
       (st, natList ((({ limit := limit, skip := skip } : Tracker).offer (List.range n)).2))
@@ -242,7 +283,12 @@ def sstep (st : SSt) (ts : List String) : SSt × String :=
   | ["floors", mx, stride] => match mx.toNat?, stride.toNat? with
     | some mx, some stride => if stride == 0 then (st, "bad-op") else (st, natList (floors mx stride))
     | _, _ => (st, "bad-op")
-  | _ => (st, "bad-op")
+  | _ => match parseQuery st.edges ts with
+    | none => (st, "bad-op")
+    | some q =>
+      -- the call-by-call transcription of ops.Traversal + helper (with the break at the limit)
+      let fin := Dawgs.C17.Seq.loop q.plan (seqFuel st.edges) (start q.root q.skip q.limit)
+      if !fin.stack.isEmpty then (st, "model-out-of-fuel") else (st, fmtResult q fin.out)
 
 def seqSuite : Suite := { σ := SSt, init := {}, step := sstep }
 
